@@ -4,6 +4,8 @@ import TsRsVerif.Lemmas.BuiltinLemmas
 import TsRsVerif.Lemmas.MemberLemmas
 import TsRsVerif.Lemmas.MemberbSound
 import TsRsVerif.Props.C12
+import TsRsVerif.Lemmas.TreeSound
+import TsRsVerif.Model.TsNorm
 /-!
 # C01 â€” serialized values inhabit the generated TypeScript type
 
@@ -17,10 +19,17 @@ objects, `bigint` = JSON integer, `A & B` on objects = disjoint merge).  What is
 * the assembly lemmas every derive arm reduces to: an exact object from its fields (`C01_struct`),
   externally / adjacently tagged variants, union arms, internally tagged struct variants.
 
-PARTIAL: the composition "for every item, `ser` lands in `parse (decl)`" over the whole derive
-(`Derive.itemDef` is a string-level model) is not proven as one theorem; it is decided per run by
-the sound oracle on every generated program and value (thousands per run, all enum
-representations Ã— shapes Ã— attributes Ã— generics).
+* `C01_items_sound` / `C01_types_sound` â€” END TO END for the core fragment (`Tree.fragB`: structs of
+  every shape and enums of every representation with rename / rename_all / rename_all_fields / tag /
+  content / skip / per-variant untagged, any library types around user types, recursion; no generics,
+  flatten, inline, optional, `as`, `type`): for EVERY program in the fragment, every type, every value,
+  every fuel, what the serde model writes inhabits what the tree-level derive (`Model/TreeDerive.lean`)
+  declares. Tie: the tree-level derive is compared with the parsed REAL `decl()` of every corpus item in
+  the fragment on every run (`tree_check`), the serde model with the real serde_json output.
+
+PARTIAL: outside that fragment (generics, flatten, inline, optional, `as`) the composition over the whole
+derive is not one theorem; it is decided per run by the sound oracle on every generated program and
+value (thousands per run, all enum representations Ã— shapes Ã— attributes Ã— generics).
 -/
 namespace TsRs
 open Text Ts Builtin
@@ -88,6 +97,38 @@ theorem C01_union_arm (D : Decls) (arms : List Ts) (T : Ts) (j : JVal) (hT : T â
 theorem C01_reference (D : Decls) (n : Str) (args : List Ts) (ps : List Str) (body : Ts) (j : JVal)
     (hl : lookupDecl D n = some (ps, body)) (h : Member D (subst (ps.zip args) body) j) :
     Member D (.ref n args) j := Member.ref hl h
+
+/-- **end to end, user types**: in a program of the fragment, the JSON the serde model writes for ANY
+value of ANY item (at any depth of nesting, any fuel) inhabits the reference to the item's declaration as the
+tree-level derive declares it. -/
+theorem C01_items_sound (cfg : Cfg) (env : Env) (hF : Tree.fragB cfg env = true)
+    (fuel : Nat) (id : Str) (args : List RTy) (v : RVal) (j : JVal) (it : Item) (targs : List Ts)
+    (hfind : env.find id = some it) (hs : Serde.serItem cfg env fuel id args v = some j) (hc : cleanV v = true) :
+    Member (Tree.declsOf cfg env) (.ref (Derive.tsName it) targs) j :=
+  all_sound cfg env hF (fuel + 1) fuel (by omega) id args v j it targs hfind hs hc
+
+/-- **end to end, any type expression**: library constructors around user types -/
+theorem C01_types_sound (cfg : Cfg) (env : Env) (hF : Tree.fragB cfg env = true)
+    (fuel : Nat) (t : RTy) (v : RVal) (j : JVal) (T : Ts)
+    (hs : Serde.serTy cfg env fuel t v = some j) (hc : cleanV v = true) (hT : Tree.tyTs cfg env t = some T) :
+    Member (Tree.declsOf cfg env) T j :=
+  serTy_sound cfg env fuel (fun m hm => all_sound cfg env hF fuel m hm) fuel (by omega) t v j T hs hc hT
+
+/-! ## non-vacuity of the end-to-end theorem: a program in the fragment, a value, its JSON -/
+def exCfg : Cfg := { ops := Case.asciiOps }
+def exEnv : Env := [
+  { isEnum := false, name := "Leaf".toList, attr := { renameAll := some .camel },
+    fields := [{ name := some "leaf_x".toList, ty := .prim "u8" }, { name := some "s".toList, ty := .option (.prim "String") }] },
+  { isEnum := true, name := "E".toList, attr := { tag := some "t".toList },
+    variants := [{ name := "A".toList, shape := .unit, fields := [] },
+                 { name := "B".toList, shape := .named, fields := [{ name := some "leaf".toList, ty := .vec (.named "Leaf".toList []) }] }] }]
+
+example : Tree.fragB exCfg exEnv = true := by decide +kernel
+-- evaluated, not kernel-checked (`serB` is defined by well-founded recursion): a test of the example, not a theorem
+#guard ((Serde.serItem exCfg exEnv 10 "E".toList [] (.variant 1 [.seq [.strukt [.int 7, .none]]])).map
+    (JVal.beq Â· (.obj [("t".toList, .str "B".toList), ("leaf".toList, .arr [.obj [("leafX".toList, .int 7), ("s".toList, .null)]])]))) == some true
+example : (Tree.itemBody exCfg exEnv exEnv[1]!).map (Ts.beq Â· (.union [.obj [({ name := "t".toList }, .lit "A".toList)],
+    .obj [({ name := "t".toList }, .lit "B".toList), ({ name := "leaf".toList }, .array (.ref "Leaf".toList []))]])) = some true := by decide +kernel
 
 /-! ## non-vacuity: a real-looking instance through the sound oracle -/
 example : Member
